@@ -70,6 +70,85 @@ Example interleaved :
   run_reg_ops [(1, [1]); (2, [2; 1])] [] []
     [RegSaver 1 (Some 1) 10; DoSave 2; DoSave 1; RegSaver 1 (Some 2) 11; DoSave 1; DoSave 2; RegSaver 2 (Some 1) 12; DoSave 2;
      RegSaver 3 (Some 2) 13; DoSave 3]
-  = [RReg RNone; RUsed 1 1 10; RUsed 1 1 10; RReg RNone; RUsed 1 2 11; RUsed 1 2 11; RReg RNone; RUsed 2 1 12;
-     RReg RKeyError; RRaises 1].
+  = [RReg RNone; RUsed 2 1 10; RUsed 1 1 10; RReg RNone; RUsed 1 2 11; RUsed 2 2 11; RReg RNone; RUsed 2 1 12;
+     RReg RKeyError; RRaises 1].      (* RUsed (_type stamped = the object's class) (version) (function) *)
+Proof. vm_compute. reflexivity. Qed.
+
+(* ================================================================= round 5: the translated functions (gen/Gen_dispatch.v) *)
+From GV Require Import gen.Gen_dispatch C12.GenEquiv C12.GenTheorems.
+
+(* the same history through the translated decorators / GlueSerializer.do / GlueUnSerializer._dispatch; a load of class 2 at
+   version 1 walks [2; 1] and creates the empty entries of the loader registry on its way *)
+Example interleaved_translated :
+  grun_reg_ops (reg_ops [(1, [1]); (2, [2; 1])]) [] []
+    [RegSaver 1 (Some 1) 10; DoSave 2; DoSave 1; RegSaver 1 (Some 2) 11; DoSave 1; DoSave 2; RegSaver 2 (Some 1) 12; DoSave 2;
+     RegSaver 3 (Some 2) 13; DoSave 3; RegLoader 1 (Some 1) 20; DoLoad 2 1; DoLoad 2 2; RegLoader 1 None 21]
+  = [RReg RNone; RUsed 2 1 10; RUsed 1 1 10; RReg RNone; RUsed 1 2 11; RUsed 2 2 11; RReg RNone; RUsed 2 1 12;
+     RReg RKeyError; RRaises 1; RReg RNone; RUsed 2 1 20; RRaises 5; RReg RValueError].
+Proof. vm_compute. reflexivity. Qed.
+
+(* hypotheses of grun_reg_ops_eq / gen_versions_consecutive_write_once are met by the wire instance *)
+Example wire_ops_int : forall ver, py_int (reg_ops []) (raw_of ver) = ver.
+Proof. exact wire_int_raw_of. Qed.
+
+(* all kinds of rejected assignments through the translated __setitem__: bad key, non-integer, 0, skipped, overwritten *)
+Example translated_rejections :
+  snd (grun (reg_ops []) vd_init
+         [SetBadKey; SetItem 7 None 1; SetItem 7 (Some 0) 2; SetItem 7 (Some 2) 3; SetItem 7 (Some 1) 4; SetItem 7 (Some 1) 5;
+          SetItem 7 (Some 2) 6; GetItem 7; GetVersion 8 1; Contains 8; GetItem 8; Len])
+  = [RValueError; RValueError; RValueError; RKeyError; RNone; RKeyError; RNone; RPair 6 2; RKeyError; RBool true; RValueError; RVal 2].
+Proof. vm_compute. reflexivity. Qed.
+
+(* the translated __delitem__ *)
+Example translated_delitem : vd_delitem (reg_ops []) 7 [(7, [(1, 4)])] = ([(7, [(1, 4)])], Raise ValueError).
+Proof. reflexivity. Qed.
+
+(* the rename loop needs fuel: a chain of length 2 exists in the table, and a cyclic table is reported as OutOfFuel, not as an answer *)
+Example translated_loop_chain : exists p, In p patches /\ gen_resolve_in patches 0 (p_from p) = OutOfFuel.
+Proof.
+  destruct (find (fun p => match gen_resolve_in patches 0 (p_from p) with OutOfFuel => true | _ => false end) patches) as [p|] eqn:F.
+  - apply find_some in F. exists p. split; [tauto|]. destruct F as [_ F]. destruct (gen_resolve_in patches 0 (p_from p)); congruence.
+  - exfalso. revert F. vm_compute. discriminate.
+Qed.
+Example translated_loop_cycle :
+  gen_resolve_in [mkPatch 1 2 false false; mkPatch 2 1 false false] 2 1 = OutOfFuel.
+Proof. vm_compute. reflexivity. Qed.
+
+(* the pipeline theorem is not vacuous: Data has five versions, the record of version 3 carries _protocol 3 and goes to loader (Data, 3);
+   version 1 carries no _protocol *)
+Example roundtrip_data :
+  let t := name_id "glue.core.data.Data" in
+  (exists r, In r savers /\ s_cls r = t /\ s_versions r = [1; 2; 3; 4; 5])
+  /\ gen_written t 3 = Ret (PRec [("fn"%string, fid t 3); ("_type"%string, t); ("_protocol"%string, 3)])
+  /\ gen_roundtrip t 3 = Ret (fid t 3)
+  /\ gen_written t 1 = Ret (PRec [("fn"%string, fid t 1); ("_type"%string, t)]).
+Proof.
+  cbv zeta. split; [|vm_compute; repeat split; reflexivity].
+  destruct (find (fun r => s_cls r =? name_id "glue.core.data.Data") savers) as [r|] eqn:F.
+  - apply find_some in F. exists r. destruct F as [Hin E]. apply Z.eqb_eq in E. split; [exact Hin|]. split; [exact E|].
+    revert Hin E. vm_compute. intros Hin E.
+    repeat (destruct Hin as [Hin|Hin]; [subst r; try (vm_compute in E; discriminate E); try reflexivity|]). contradiction.
+  - exfalso. revert F. vm_compute. discriminate.
+Qed.
+
+(* a class with __gluestate__ / __setgluestate__ (method dispatch) and a subclass that inherits a registered saver both occur *)
+Example dispatch_kinds :
+  (exists c p, In c classes /\ gen_saver_of c = Ret (meth_id p, 1))
+  /\ (exists c t v, In c classes /\ gen_saver_of c = Ret (fid t v, v) /\ t <> c_id c).
+Proof.
+  split.
+  - destruct (find (fun c => match c_gs c with Some _ => true | None => false end) classes) as [c|] eqn:F.
+    + apply find_some in F. destruct F as [Hc G]. destruct (c_gs c) as [p|] eqn:E; [|discriminate].
+      exists c, p. split; [exact Hc|]. rewrite (gen_saver_of_eq c Hc). unfold saver_of, saver_of_in. now rewrite E.
+    + exfalso. revert F. vm_compute. discriminate.
+  - destruct (find (fun c => match saver_of c with Some (Reg t _) => negb (t =? c_id c) | _ => false end) classes) as [c|] eqn:F.
+    + apply find_some in F. destruct F as [Hc G]. destruct (saver_of c) as [[p|t v]|] eqn:E; try discriminate.
+      exists c, t, v. split; [exact Hc|]. rewrite (gen_saver_of_eq c Hc), E. split; [reflexivity|].
+      apply negb_true_iff in G. now apply Z.eqb_neq.
+    + exfalso. revert F. vm_compute. discriminate.
+Qed.
+
+(* the decorator table is not empty and contains the five Data savers *)
+Example registrations_data :
+  List.length (filter (fun x => match x with (false, c, _, _) => c =? name_id "glue.core.data.Data" | _ => false end) registrations) = 5%nat.
 Proof. vm_compute. reflexivity. Qed.
